@@ -5,6 +5,26 @@ V = os.path.dirname(os.path.dirname(os.path.abspath(__file__)))
 ALL = ['C%02d' % i for i in range(1, 20)]
 
 CHECKS = {
+ 'C06': dict(
+   technique='static pairing rules by path enumeration over the body states: delivery <-> entity accounting, sibling agreement of the five bulk-consume blocks, wire hand-over <-> message accounting, must-precede for the end-of-body marker',
+   text='Decides for all paths: every body-data delivery is preceded exactly once by entity_len += that record\'s len; after a successful bulk hand-over the read/consume/stream offsets (and message length, and remaining length) move by exactly the amount handed over, once, with the amount min(remaining, available); every wire hand-over is accounted in message_len (one recorded finding: REQ_FINALIZE unexpected body); the end-of-body marker precedes the completion hook whenever a body exists. Not decided: that the concatenation of deliveries equals the entity body.',
+   note='Values are not tracked; chunk-size parsing is not part of this check. One known finding (D9).',
+   ref='§4.6'),
+ 'C07': dict(
+   technique='static must-pass-through rule for the bomb test in every function stored in the decompressor callback slot, reaching definitions of every handed-out (data,len), abstract exploration of the decompress routine in the ended state, loop-path rule for layer limits',
+   text='Decides the bound part for all paths: each decompressor callback passes the (limit && 2048x ratio) test after accounting before it can return OK; every record handed on is the 8 KiB buffer with len <= GZIP_BUF_SIZE or the input unchanged; a failed delivery ends the decompressor and the ended state never hands the buffer out again (D6, repaired by fix 9b680f3); layer limits precede every creation in the multi-coding loop. The restart-after-consumption defect F12 is a recorded finding. Not decided: fidelity of the inflated bytes.',
+   note='zlib / LZMA SDK are trusted to respect avail_out. One known finding (F12), one fixed defect (D6).',
+   ref='§4.7'),
+ 'C08': dict(
+   technique='static cap-dominates-growth rules and a loop-nesting rule (callee looping over the unconsumed span or a per-transaction container, reached once per byte / per line, needs a dominating cap)',
+   text='Timing is not a static quantity. Decided for all paths: every cap the code relies on for linear work is in force (hard limit before buffer growth, folded cap, repetition cap, HTTP/0.9 junk cap, empty chunk-length line consumed, NUL skip before the inner search loop), and helpers that rescan a growing span/container per byte or per line are reported: three recorded findings (uncapped header-table scan on both sides, per-byte chunk-length probe), each replayed as quadratic.',
+   note='An O(n) bound for all inputs is not decided. Known findings D14 (x2), D22.',
+   ref='§4.8'),
+ 'C10': dict(
+   technique='static limit-before-growth must-pass-through rules on the buffering routines, header processors and tx creation; error-discipline rule on every caller of the buffering routines',
+   text='Decides for all paths: the hard field limit is tested on (buffered + new + pending header) before every malloc/realloc of the line buffer and exceeding it is an error that every caller propagates (the one ignoring caller, D21, was replayed and repaired by fix dbeb37b); folded and repeated headers grow only under their caps; transactions are created only through the max_tx test; auto-destroy runs on every successful completion path; a previous decompressor chain is destroyed before a new one is stored. Not decided: steady-state heap size as a number.',
+   note='Heap size after N transactions is a run-time quantity.',
+   ref='§4.10'),
  'C04': dict(
    technique='static who-may-write rules for the pairing counter and the transaction list; path rules over RES_IDLE and the tx constructor (clang CFG)',
    text='Decides the counter/list discipline that pairing rests on, for every path: the transaction list is appended only by the constructor with index = size, slots are only NULLed or shifted off the front one-for-one with the pairing counter, every path of RES_IDLE that starts a response reads transactions[out_next_tx_index] before exactly one ++, and the pipelining flag is raised exactly under size > out_next_tx_index evaluated before the append. Not decided: that ids carried in request i and response i meet (values).',
